@@ -432,22 +432,11 @@ Record sres := mkRes {
                                        uv__close() of a descriptor <= 2 (core.c:651) *)
 }.
 
-(* the descriptors uv_spawn closes with the checking uv__close(): the write end
-   of the error pipe (process.c "uv__close(signal_pipe[1])") and the child's
-   end of every UV_CREATE_PIPE pair (uv__process_open_stream); everything else
-   goes through uv__close_nocheckstdio *)
-Definition error_wfd (t : tbl) (fresh : nat) : nat :=
-  snd (alloc (fst (alloc t 0 fresh true)) 0 (S fresh) true).
-
-Fixpoint streams_trip (cs : list stdio) (ps : pipes) : bool :=
-  match cs, ps with
-  | c :: cr, (a, b) :: pr =>
-      match c, a, b with
-      | SPipe, Some _, Some n => (n <=? 2)%nat || streams_trip cr pr
-      | _, _, _ => streams_trip cr pr
-      end
-  | _, _ => false
-  end.
+(* Since /repo 298b4fa every close() the parent does inside uv_spawn goes through
+   uv__close_nocheckstdio (error pipe: both ends; stdio pairs: the child's end
+   in uv__process_open_stream, all rows on the error path), so no descriptor
+   reaches the checking uv__close(): *)
+Definition checked_closes (t : tbl) (ps : pipes) : list nat := [].
 
 (* uv__spawn_and_init_child (860-963) on the table after init_stdio.
    Returns exec_errorno, the parent's table, the child, where the child wrote,
@@ -498,8 +487,7 @@ Definition uv_spawn (s : spec) (wo : list wans) : sres * list wans :=
                     end
                 | _ => None
                 end in
-      let trip := (negb (s_pipe_fail s) && (error_wfd t1 fresh1 <=? 2)%nat)
-                  || streams_trip (s_stdio s) ps in
+      let trip := existsb (fun fd => (fd <=? 2)%nat) (checked_closes t1 ps) in
       (mkRes eno (eno =? 0) t3 c streams wrote reaped (snd masks) (fst masks) cr trip, wo1)
   end.
 
